@@ -16,6 +16,7 @@ import Larking.Model.Proxy
 import Larking.Model.Mount
 import Larking.Model.WebWriter
 import Larking.Model.Lifecycle
+import Larking.Model.WsClose
 import Larking.Gen.Params
 import Larking.Gen.Lexer
 namespace Larking.Driver
@@ -502,6 +503,7 @@ def handleWeb : List String → Option String
       | some tr =>
         let es := tr.map fun kv => toHex kv.1 ++ "=" ++ ",".intercalate (kv.2.map toHex)
         pure (";".intercalate (es.mergeSort fun a b => decide (a ≤ b)))
+  | ["wsreason", h] => (hexArg h).map fun b => toHex (WsClose.reason Gen.wsReasonMax Gen.wsReasonRuneSafe b)
   | ["lifecycle", guarded, steps] =>
       let st := steps.toList.filterMap fun c =>
         match c with
